@@ -43,6 +43,8 @@ type ProviderCache struct {
 	writeLock chan struct{}
 
 	needsRefresh atomic.Bool
+	// refreshing is true while a Refresh holds writeLock.
+	refreshing   atomic.Bool
 	refreshIn    time.Duration
 	refreshTimer *time.Timer
 }
@@ -260,15 +262,26 @@ func (pc *ProviderCache) Refresh(ctx context.Context) error {
 	select {
 	case pc.writeLock <- struct{}{}:
 	default:
-		// Refresh already in progress, wait for it to finish.
+		if pc.refreshing.Load() {
+			// Refresh already in progress, wait for it to finish.
+			select {
+			case pc.writeLock <- struct{}{}:
+				<-pc.writeLock
+			case <-ctx.Done():
+			}
+			return ctx.Err()
+		}
+		// The write lock is held by a lookup of a missing provider, not by
+		// a refresh. Wait for the lookup to finish and then refresh.
 		select {
 		case pc.writeLock <- struct{}{}:
-			<-pc.writeLock
 		case <-ctx.Done():
+			return ctx.Err()
 		}
-		return ctx.Err()
 	}
+	pc.refreshing.Store(true)
 	defer func() {
+		pc.refreshing.Store(false)
 		<-pc.writeLock
 	}()
 	verifPoint("refresh.locked")
